@@ -71,6 +71,9 @@ def _on_alarm(signum, frame):
 
 STOP_EVENT = [None]      # multiprocessing.Event shared by the pool
 XCHECK_SOLVER = "/usr/bin/z3"   # z3 4.8.12 (the engine links z3 5.1)
+# first stage of every query on the incremental solver; a query not answered
+# by then is asked again from scratch (Engine._recheck)
+STAGE1_MS = 20000
 
 
 class Stopped(_Control):
@@ -118,7 +121,7 @@ class ConcreteViolation(_Control):
 class Stats(object):
     FIELDS = ("paths", "vacuous", "branches", "forks", "sat", "unsat",
               "unknown", "solver_s", "proved", "concretised", "validated",
-              "cache_hits", "model_hits", "xchecked", "xunknown")
+              "cache_hits", "model_hits", "xchecked", "xunknown", "rechecks")
 
     def __init__(self):
         for f in self.FIELDS:
@@ -289,7 +292,7 @@ class Engine(object):
             bad = z3.Not(z3.And([c for c, _ in self.side]))
             r = self._check(bad)
             if r == z3.sat:
-                m = self.solver.model()
+                m = self._last_model()
                 for c, what in self.side:
                     if z3.is_false(m.eval(c, model_completion=True)):
                         raise Inconclusive("side condition can fail: %s" %
@@ -315,7 +318,16 @@ class Engine(object):
     # ------------------------------------------------------------------
     def _check(self, *assumptions):
         t = time.time()
+        self._answered = self.solver
+        staged = isinstance(self.solver, z3.Solver) and \
+            self.timeout_ms > STAGE1_MS
+        if staged:
+            self.solver.set("timeout", STAGE1_MS)
         r = self.solver.check(*assumptions)
+        if staged:
+            self.solver.set("timeout", self.timeout_ms)
+            if r == z3.unknown:
+                r = self._recheck(assumptions)
         self.stats.solver_s += time.time() - t
         if r == z3.sat:
             self.stats.sat += 1
@@ -327,11 +339,37 @@ class Engine(object):
                                self.solver.reason_unknown())
         return r
 
+    def _recheck(self, assumptions):
+        """The incremental solver gave up within the first stage.  How long
+        z3 takes on one query depends on heuristics that are sensitive to
+        the history of the process (which tasks a worker ran before); a query
+        that is answered in milliseconds nearly always may, rarely, not
+        finish.  Ask again from scratch: fresh solvers with other seeds, the
+        last one with the unit's full budget.  A verdict is a verdict
+        whichever solver instance gave it; `unknown` only if all give up."""
+        budgets = [min(self.timeout_ms, 4 * STAGE1_MS), self.timeout_ms]
+        r = z3.unknown
+        for seed, budget in enumerate(budgets, 1):
+            s2 = z3.Solver()
+            s2.set("timeout", budget)
+            s2.set("random_seed", seed)
+            s2.add(self.solver.assertions())
+            r = s2.check(*assumptions)
+            self.stats.rechecks += 1
+            if r != z3.unknown:
+                self._answered = s2
+                return r
+        return r
+
+    def _last_model(self):
+        """Model of the most recent `sat` answer."""
+        return self._answered.model()
+
     def _get_model(self):
         if self.model is None:
             if self._check() != z3.sat:
                 raise PathAbort()
-            self.model = self.solver.model()
+            self.model = self._last_model()
         return self.model
 
     def _add(self, cond):
@@ -418,7 +456,7 @@ class Engine(object):
             if known is True or (known is None and
                                  self._check(cond) == z3.sat):
                 if known is None:
-                    self.model = self.solver.model()
+                    self.model = self._last_model()
                     known = True
                 alts.append(1)
             if known is False:
@@ -646,7 +684,7 @@ class Engine(object):
             if self._check(z3.Not(c)) == z3.unsat:
                 self._crosscheck(c, "unsat")
                 return True
-            m = self.solver.model()
+            m = self._last_model()
             self._crosscheck(c, "sat")
         self.path_violations.append(Violation(
             label, self._model_inputs(m), list(self.choices),
